@@ -2065,6 +2065,15 @@ class Interp:
             if isinstance(l, K) and isinstance(r, K) and isinstance(l.v, str) and isinstance(r.v, str):
                 return [((l.v in r.v) != neg, st)]
             return self._fork2(st, test)
+        if isinstance(l, K) and isinstance(r, K) and (isinstance(l.v, EnumMember) or isinstance(r.v, EnumMember)):
+            # members of an integer enumeration are ordered by their values (EnumMember's own `<` is a sort key by
+            # name and says nothing about the program); anything else about enum members is not decided here
+            lv = l.v.value if isinstance(l.v, EnumMember) else l.v
+            rv = r.v.value if isinstance(r.v, EnumMember) else r.v
+            if isinstance(lv, int) and isinstance(rv, int) and not isinstance(lv, bool) and not isinstance(rv, bool):
+                l, r = K(lv), K(rv)
+            else:
+                return self._fork2(st, test)
         if isinstance(l, K) and isinstance(r, K):
             try:
                 if isinstance(op, ast.Lt):
